@@ -22,7 +22,8 @@ META = {
              'fo run into the same destination, the compact URL form compu'
              'ted from Python floats and NumPy scalars.'
              " Round 12: NIfTI headers with qform and sform both set (equal / different) or the qform alone."
-             " Round 17: pixdim / qform voxel sizes that differ from the sform's column norms."),
+             " Round 17: pixdim / qform voxel sizes that differ from the sform's column norms."
+             " Round 18: rerun with an image of the same grid and another affine."),
     "trusted_base": ["nibabel (writes the file, reports the affine the tool "
                      "sees)", "float64 arithmetic with relative tolerance "
                      "1e-9"],
@@ -183,7 +184,14 @@ def check_case(ctx, case):
                     # earlier image (same voxels, another affine)
                     M1 = np.array(case["affine"]["matrix"], dtype=float)
                     M1[:3, 3] += [5.0, -3.0, 2.0]
-                    M1[:3, 0] *= 2.0
+                    if case["seed"] % 2:
+                        M1[:3, 0] *= 2.0
+                    else:
+                        # same grid and voxel sizes, another orientation and
+                        # origin (a corrected left-right flip): the info
+                        # files of the two images are identical, only the
+                        # transforms differ
+                        M1[:3, 0] *= -1.0
                     path1 = os.path.join(d, "first.nii")
                     nifti.write_nifti(path1, raw, M1, slope, inter)
                     img1, ok1 = nifti.load_checked(path1, raw, slope, inter)
